@@ -33,12 +33,12 @@
 //!
 //! See the MDK documentation for Android-specific setup instructions.
 
-#[cfg(not(feature = "verif-hooks"))]
-use std::sync::{Mutex, OnceLock};
-#[cfg(feature = "verif-hooks")]
-use std::sync::OnceLock;
 #[cfg(feature = "verif-hooks")]
 use crate::verif::sync::Mutex;
+#[cfg(feature = "verif-hooks")]
+use std::sync::OnceLock;
+#[cfg(not(feature = "verif-hooks"))]
+use std::sync::{Mutex, OnceLock};
 
 use keyring_core::{Entry, Error as KeyringError};
 
